@@ -69,6 +69,9 @@ def check(ctx):
 
 def schedules(ctx):
     M = ctx.M
+    from ..lib import one_shot_state
+    for cn_ in ('DailyBusinessDaySimulationEngine', 'WeeklyRebalance', 'DailyRebalance', 'EndOfMonthRebalance', 'BuyAndHoldRebalance'):
+        ctx.sub(one_shot_state, 'C13.S4', cn_)      # a schedule / clock that is exhausted by its first reader skips every later rebalance
     # ---- weekly / daily / end of month: decided on the constructor (what ends up in self.rebalances), for both settings of pre_market
     pkg = ctx.fn('WeeklyRebalance.__init__').path.rsplit('/', 1)[0]
 
